@@ -97,8 +97,9 @@ pub fn gen_c19(seed: u64, force_pop: Option<&'static str>) -> Case {
     let maxp = if pop == "limit" { r.range(1, 3) } else { 128 };
     let trunc = r.range(0, 4);
     let layer = if pop == "remap" {
-        // time-insensitive remapping incl. a held layer
-        "x C-y (layer-while-held l1) (multi z w)"
+        // time-insensitive remapping incl. a held layer; sometimes a macro that any other key
+        // press cancels (it has to be cancelled by a replayed press just like by a typed one)
+        *r.pick(&["x C-y (layer-while-held l1) (multi z w)", "x C-y (layer-while-held l1) (multi z w)", "(macro-cancel-on-press z 400 y) C-y (layer-while-held l1) w"])
     } else {
         "a b c d"
     };
@@ -190,6 +191,10 @@ pub fn gen_c19(seed: u64, force_pop: Option<&'static str>) -> Case {
     ops.push(Op::Gap(1500));
     case.ops = ops;
     case.set("pop", pop);
+    if layer.contains("macro-cancel-on-press") {
+        // (with a 2-tick macro step in play the typed gaps of >= 3 ms matter: keep them)
+        case.set("min_gaps", 0);
+    }
     case.set("behaviour", behaviour);
     case.set("maxp", maxp);
     case.set("min_cfg", 0);
@@ -496,7 +501,7 @@ impl Prop for C19 {
                 }
                 ops2.push(Op::Gap(5));
             }
-            ops2.push(Op::Gap(100));
+            ops2.push(Op::Gap(700));
             st2.run_ops(&ops2);
             let want: Vec<(bool, String)> = st2.trace.outs.iter().filter(|e| matches!(e.kind, OutKind::Press | OutKind::Release)).map(|e| (e.kind == OutKind::Press, e.key.clone())).collect();
             let got: Vec<(bool, String)> = replay_outs.iter().filter(|e| matches!(e.kind, OutKind::Press | OutKind::Release)).map(|e| (e.kind == OutKind::Press, e.key.clone())).collect();
